@@ -181,6 +181,12 @@ def gen(rng, nrng, tier):
             order = int(nrng.integers(1, 5))
             if _well_conditioned(x, order):
                 yield ("burg", {"x": x, "order": order, "crit": None, "exact": False, "dkind": "scaled", "q": 1})
+    for i in range(10 if tier == "quick" else 100):      # the largest admissible order, N - 2
+        cplx = bool(i % 2)
+        N = int(nrng.integers(4, 14))
+        x = _mk(nrng, N, cplx, "noise", False)
+        if _well_conditioned(x, N - 2):
+            yield ("burg", {"x": x, "order": N - 2, "crit": None, "exact": False, "dkind": "noise", "q": 1})
     n = 220 if tier == "quick" else 3000
     kinds = ["noise", "tone", "int", "zerointer", "trend"]
     skipped = 0
